@@ -443,7 +443,8 @@ def r7(R, M):
                 continue          # stress maps (and anything that is not a stored strain map) are outside this property
             n += 1
             fname = (pyfacts.dotted(c.func) or "").split(".")[-1]
-            R.check(src(c.args[1]) not in ("self.U", "self.u"), "C10.R7", TM, c.lineno, q, "%s(%s, self.U)" % (fname, arg[:30]),
+            rot7 = pyfacts.resolved_src(fn, c.args[1], 2, keep=("self",)).replace(" ", "")
+            R.check(rot7 not in ("self.U", "self.u"), "C10.R7", TM, c.lineno, q, "%s(%s, self.U)" % (fname, arg[:30]),
                     "the strain map of one frame is made from the cached map of the other frame by rotating with self.U (Busing-Levy "
                     "orientation) instead of the polar rotation: which answer %s gives depends on which of the two maps was asked for (or "
                     "loaded) first, and the rotated one differs from the per-grain tensor in second order of the strain" % q,
@@ -477,7 +478,9 @@ def r5(R, M):
                     "a map in the %s frame is rotated with %s, which expects a %s-frame tensor: the result is U^T.e.U where U.e.U^T was "
                     "meant (or the reverse) - it differs from the directly computed map by O(strain)" % (have, fname, frame_of[fname]))
             # the rotation used is the grain orientation of the same map
-            R.check(len(c.args) >= 2 and src(c.args[1]) in ("self.U",), "C10.R5", TM, c.lineno, q, "rotation argument %s" % (src(c.args[1]) if len(c.args) > 1 else None),
-                    "the tensor is not rotated with the orientation U of the same voxels")
+            rot = pyfacts.resolved_src(fn, c.args[1], 2, keep=("self",)).replace(" ", "") if len(c.args) > 1 else None
+            R.check(rot in ("self.U", "self.polar_rotation()"), "C10.R5", TM, c.lineno, q, "rotation argument %s" % rot,
+                    "the tensor is not rotated with a rotation of the same voxels (the polar rotation of the deformation gradient for "
+                    "strain maps, the orientation U for the others)")
     if n < 2:
         R.fail("C10.R5 found %d frame conversions in TensorMap whose argument names its frame, expected at least 2" % n)
